@@ -290,7 +290,9 @@ def run(tier, seed, replay=None):
             per_kind.setdefault(k1, []).append(b)
         # injective: distinct parameters of one kind keep distinct names; indexed ones use _ŠČ0.._ŠČ(k-1) exactly once overall
         # a declared parameter that occurs nowhere else in the block is never indexed and keeps the user's spelling
-        dead = {a for (k1, a) in decl_raw if len(re.findall(r"(?<![A-Za-z0-9_\u0100-\uffff])" + re.escape(a) + r"(?![A-Za-z0-9_\u0100-\uffff])", text)) <= 1}
+        # (occurrences inside macro invocations do not count: they are opaque tokens to syn, the indexer never sees them — F-D28)
+        text_nm = re.sub(r"\b\w+!\s*[\(\[].*?[\)\]]", " ", text)
+        dead = {a for (k1, a) in decl_raw if len(re.findall(r"(?<![A-Za-z0-9_\u0100-\uffff])" + re.escape(a) + r"(?![A-Za-z0-9_\u0100-\uffff])", text_nm)) <= 1}
         for k1, lst in per_kind.items():
             if len(set(lst)) != len(lst):
                 fail = {"clause": "distinct parameters must receive distinct names", "names": lst}
